@@ -90,35 +90,49 @@ LANE = Lane("stream", "stream/StreamModelConf", model_cfg, "harness.families.str
 
 # ------------------------------------------------------------------------------ M-mode sweeps
 def mmode_configs(tier):
-    """[c |-> StreamContract configuration, m |-> StreamModel configuration] far beyond the G-mode sizes"""
+    """[c |-> StreamContract configuration, m |-> StreamModel configuration] beyond the G-mode sizes.
+    FIFO memories hold two-valued tokens (first/last only up to depth 3): the control logic does not depend on
+    the data, two values are enough to expose a read from a wrong slot on some token sequence."""
     L = []
     C = fam._cfg
+    th = tier == "thorough"
 
     def add(spec, cfg):
         m = model_cfg(spec, cfg)
         assert m is not None, spec
         L.append({"c": cfg, "m": m, "spec": spec})
-    deep = (2, 3, 4, 5, 8) if tier == "quick" else (2, 3, 4, 5, 6, 7, 8, 12, 16)
     add({"cls": "PipeValid", "dw": 2, "pw": 1}, C("id", dset=range(4), pmax=1, cap=3))
     add({"cls": "PipeReady", "dw": 2, "pw": 1}, C("id", dset=range(4), pmax=1, cap=3))
-    for depth in deep:
+    for depth in ((2, 3, 4, 5, 6, 7, 8, 10, 12) if th else (2, 3, 5, 6, 8)):
         for buf in (False, True):
             add({"cls": "SyncFIFO", "args": {"depth": depth, "buffered": buf}, "dw": 1},
-                C("id", fl=1 if depth <= 4 else 0, cap=depth + 3))
-    for ratio in ((2, 3, 4, 8) if tier == "quick" else (2, 3, 4, 5, 6, 7, 8, 16)):
+                C("id", fl=1 if depth <= (3 if th else 2) else 0, cap=depth + 3))
+    for ratio in ((2, 3, 4, 5, 6) if th else (2, 3, 4)):
         for rev in (False, True):
             add({"cls": "Converter", "args": {"nfrom": 1, "nto": ratio, "reverse": rev, "vtc": True}, "vtc": True},
                 C("up", dset=range(2), ratio=ratio, reverse=int(rev), w=1, vtc=1, cap=3))
             ds = sorted({1 << k for k in range(ratio)} | {0, (1 << ratio) - 1, 0b0110 % (1 << ratio)})
             add({"cls": "Converter", "args": {"nfrom": ratio, "nto": 1, "reverse": rev, "vtc": True}, "vtc": True},
                 C("down", dset=ds, ratio=ratio, reverse=int(rev), w=1, vtc=1, cap=ratio + 1))
-    add({"cls": "Converter", "args": {"nfrom": 2, "nto": 8, "reverse": False, "vtc": True}, "vtc": True},
-        C("up", dset=range(4), ratio=4, w=2, vtc=1, cap=3))
-    pairs = [(2, 3), (3, 2), (2, 4), (4, 2), (1, 2), (4, 6), (5, 2)] if tier == "quick" else \
-            [(2, 3), (3, 2), (2, 4), (4, 2), (1, 2), (4, 6), (5, 2), (2, 5), (3, 3), (6, 4), (10, 4), (4, 10), (8, 1), (1, 8)]
+    add({"cls": "Converter", "args": {"nfrom": 8, "nto": 1, "reverse": False, "vtc": True}, "vtc": True},
+        C("down", dset=[0, 1, 2, 4, 8, 16, 32, 64, 128, 255, 0xa5], ratio=8, w=1, vtc=1, cap=9))
+    add({"cls": "Converter", "args": {"nfrom": 6, "nto": 2, "reverse": True, "vtc": True}, "vtc": True},
+        C("down", dset=[0, 63, 0b100111, 0b011000, 0b110110], ratio=3, reverse=1, w=2, vtc=1, cap=4))
+    if th:
+        add({"cls": "Converter", "args": {"nfrom": 2, "nto": 6, "reverse": False, "vtc": True}, "vtc": True},
+            C("up", dset=range(4), ratio=3, w=2, vtc=1, cap=3))
+        add({"cls": "Converter", "args": {"nfrom": 1, "nto": 8, "reverse": False, "vtc": True}, "vtc": True},
+            C("up", dset=range(2), fl=0, ratio=8, w=1, vtc=1, cap=3))
+    pairs = [(2, 3), (3, 2), (2, 4), (4, 2), (1, 2), (2, 1)]
+    if th:
+        pairs += [(4, 6), (5, 2), (2, 5), (3, 3), (6, 4), (1, 8), (8, 1)]
     for i, o in pairs:
         for msb in (True, False):
-            ds = range(2 ** i) if i <= 3 else sorted({1 << k for k in range(i)} | {0, (1 << i) - 1, 0b0101101 % (1 << i)})
             add({"cls": "Gearbox", "args": {"i": i, "o": o, "msb": msb}},
-                C("gear", dset=ds, fl=0, idw=i, odw=o, msb=int(msb), cap=4 * _lcm(i, o)))
+                C("gear", dset=range(2 ** i) if i <= 3 else (0, (1 << i) - 1, 0b01101001 % (1 << i)), fl=0, idw=i, odw=o,
+                  msb=int(msb), cap=4 * _lcm(i, o)))
+    if th:    # wide gearboxes with a three-valued alphabet (the shift register then takes few values)
+        for i, o in [(10, 4), (4, 10), (8, 6)]:
+            add({"cls": "Gearbox", "args": {"i": i, "o": o, "msb": True}},
+                C("gear", dset=(0, (1 << i) - 1, 0b1011001110 % (1 << i)), fl=0, idw=i, odw=o, msb=1, cap=4 * _lcm(i, o)))
     return L
